@@ -384,14 +384,14 @@ def run(ctx, res):
     # the command-line loop as a whole (Model `processGameFiles`): random command lines of 1-4 carts — readable or not, formattable or not,
     # .p8 / .p8.png, with and without --overwrite, with and without earlier outputs — and the resulting set of files compared with the model
     cl_lines, cl_cases = [], []
-    for trial in range(ctx.budget(12, 150)):
+    for trial in range(ctx.budget(24, 200)):
         d = os.path.join(ctx.tmp, 'cl%d' % trial)
         os.makedirs(d, exist_ok=True)
-        ow = rng.random() < 0.5
+        ow = rng.random() < 0.5 or trial < 8
         carts, store0, names, owner = [], {}, [], {}
-        for k in range(rng.randrange(1, 5)):
-            png = rng.random() < 0.4
-            kind = rng.choice(['good', 'good', 'bad-code', 'missing', 'garbage', 'not-a-cart'])
+        for k in range(rng.randrange(1, 5) if trial >= 8 else 1 + trial // 6):
+            png = rng.random() < 0.4 and trial >= 8
+            kind = rng.choice(['good', 'good', 'bad-code', 'missing', 'garbage', 'not-a-cart']) if trial >= 8 else ['bad-code', 'good'][(trial + k) % 2]
             if png and kind == 'bad-code':
                 kind = 'good'        # (a .p8.png is loaded through the parser already: unparseable code makes it unloadable, see 'garbage')
             nm = 'c%d%s' % (k, '.p8.png' if png else '.p8')
@@ -424,6 +424,12 @@ def run(ctx, res):
                 else:
                     open(os.path.join(d, outn), 'wb').write(b'EARLIER OUTPUT %d' % k)
                 store0[outn] = open(os.path.join(d, outn), 'rb').read()
+            if outn == nm and (trial < 8 or rng.random() < 0.5):
+                # with --overwrite the cart itself is the destination; the name the command would use WITHOUT --overwrite may exist all
+                # the same (an earlier run left it): a bystander, no destination of this command
+                by = nm[:-3] + '_fmt.p8'
+                open(os.path.join(d, by), 'wb').write(b'EARLIER OUTPUT OF ANOTHER RUN %d' % k)
+                store0[by] = open(os.path.join(d, by), 'rb').read()
             # (a missing file is not one of the load errors the loop reports and skips: the exception ends the command, like a failed write)
             carts.append('%s,%d,%d,%s' % (nm, 1 if png else 0, 1 if (loads or kind == 'missing') else 0, 'x' if kind in ('bad-code', 'missing') else 'r:ff'))
             if kind == 'good':
